@@ -44,6 +44,8 @@ type Opts struct {
 	Endpoints      []EP
 	ModelDiscovery bool
 	Mutate         func(c *config.Config)
+	// CheckInterval of every endpoint (default 5 s). An hour keeps the periodic checker out of a history.
+	CheckInterval time.Duration
 	// LogHook, if set, is called for every record logged through a request-scoped logger (gate engine).
 	LogHook func(requestID, msg string)
 }
@@ -85,6 +87,10 @@ func Boot(o Opts) (*Olla, error) {
 	cfg.Discovery.ModelDiscovery.RetryBackoff = 10 * time.Millisecond
 	cfg.Discovery.ModelDiscovery.Timeout = 3 * time.Second
 	cfg.Discovery.Static.Endpoints = nil
+	ci := o.CheckInterval
+	if ci == 0 {
+		ci = 5 * time.Second
+	}
 	for _, e := range o.Endpoints {
 		t := e.Type
 		if t == "" {
@@ -110,7 +116,7 @@ func Boot(o Opts) (*Olla, error) {
 			}
 		}
 		ec := config.EndpointConfig{URL: e.B.URL() + e.BasePath, Name: e.B.Name, Type: t, Priority: intp(e.Priority),
-			HealthCheckURL: hu, ModelURL: mu, CheckInterval: 5 * time.Second, CheckTimeout: 2 * time.Second, PreservePath: e.PreservePath}
+			HealthCheckURL: hu, ModelURL: mu, CheckInterval: ci, CheckTimeout: 2 * time.Second, PreservePath: e.PreservePath}
 		cfg.Discovery.Static.Endpoints = append(cfg.Discovery.Static.Endpoints, ec)
 	}
 	if o.Mutate != nil {
